@@ -623,10 +623,20 @@ Definition sel_agrees (c : sel_case) : bool :=
 Definition sel_spec_ok (c : sel_case) : bool :=
   let '(W, o, e, x) := c in wf W && sat (route W o e) x.
 
+Definition selection := (options * list step * outcome)%type.
+
+(* the same, many selections over one WSDL at a time (cheaper to check) *)
+Definition sel_group := (wsdl * list selection)%type.
+
+Definition grp_agrees (g : sel_group) : bool :=
+  let '(W, l) := g in forallb (fun s => let '(o, e, x) := s in sel_agrees (W, o, e, x)) l.
+
+Definition grp_spec_ok (g : sel_group) : bool :=
+  let '(W, l) := g in forallb (fun s => let '(o, e, x) := s in sel_spec_ok (W, o, e, x)) l.
+
 (* a history over several clients: the events, and for every ECall in order
    the options the harness itself had put on that client, the expression
    and what the implementation did *)
-Definition selection := (options * list step * outcome)%type.
 Definition hist_case := (wsdl * list event * list selection)%type.
 
 Definition hist_agrees (c : hist_case) : bool :=
